@@ -248,6 +248,146 @@ async def _(mpc):
     return [str(await mpc.output(f + g)), str(await mpc.output(f * g))]
 
 
+# ---------------------------------------------------------------------------------------------------- C01: secure integers
+@case('C01', 'secure % // divmod with a NEGATIVE public divisor', '6154ebc', expected=[-1, -4, 0, -1, 128, -5, -15])
+async def _(mpc):
+    secint = mpc.SecInt(8)
+    q, r = divmod(secint(100), -7)
+    return _ints(await mpc.output([secint(7) % -2, secint(7) // -2, secint(0) % -4, secint(-7) % -3, secint(-128) // -1, r, q]))
+
+
+@case('C01', 'negative public divisor, 3 parties, PRSS off', '6154ebc', cfg=(3, 1, True), expected=[-1, -4])
+async def _(mpc):
+    secint = mpc.SecInt(8)
+    x = mpc.input(secint(7), senders=0)
+    return _ints(await mpc.output([x % -2, x // -2]))
+
+
+@case('C01', 'lcm whose value exceeds the bit length of the operands', '37b49c0', expected=[700, 16256, 9900, 48])
+async def _(mpc):
+    secint = mpc.SecInt(8)
+    return _ints(await mpc.output([mpc.lcm(secint(7), secint(100)), mpc.lcm(secint(-128), secint(127)), mpc.lcm(secint(100), secint(99)),
+                                   mpc.lcm(secint(16), secint(24))]))
+
+
+@case('C01', 'sum / prod / all of a tuple', '215b581', expected=[6, 6, 1])
+async def _(mpc):
+    secint = mpc.SecInt(8)
+    t = (secint(1), secint(2), secint(3))
+    return _ints(await mpc.output([mpc.sum(t), mpc.prod(t), mpc.all((secint(1), secint(1), secint(1)))]))
+
+
+@case('C01', 'secure integer compared with a secure array (scalar first)', '552097a', numpy=True,
+      expected=[[0, 1, 0], [0, 1, 1], [0, 0, 1], [1, 1, 0], [1, 0, 1], [1, 0, 0]])
+async def _(mpc):
+    secint = mpc.SecInt(8)
+    a, s = secint.array(np.array([1, 5, 3])), secint(3)
+    return [_ints((await mpc.output(v)).tolist()) for v in (s < a, s <= a, s == a, s != a, s >= a, s > a)]
+
+
+# ---------------------------------------------------------------------------------------------------- C07 / C19: output, transfer
+@case('C07', 'transfer with a dict graph that lists only the senders', '158d9c4', cfg=(3, 1, False),
+      expected=[[['from', 1]], [], [['from', 1]]])
+async def _(mpc):
+    r = await mpc.transfer(['from', mpc.pid], sender_receivers={1: [0, 2]})
+    all_ = await mpc.transfer(r)          # everybody learns what everybody obtained
+    return all_
+
+
+@case('C19', 'transfer with a dict graph: a party that is no key of the dict sends nothing and raises nothing', '158d9c4',
+      cfg=(3, 1, False), expected=[[], ['x1'], []])
+async def _(mpc):
+    r = await mpc.transfer('x' + str(mpc.pid), sender_receivers={1: [1]})
+    return await mpc.transfer(r)
+
+
+@case('C19', 'output of secure group elements / secure floats to non-receivers: one None per element', '39fe191', cfg=(3, 1, False),
+      expected=[2, 2, 1])
+async def _(mpc):
+    from mpyc import fingroups as fg
+    secgrp = mpc.SecGrp(fg.EllipticCurve('Ed25519', 'extended'))
+    g = secgrp.group.generator
+    out = await mpc.output([secgrp(g), secgrp(g ^ 2)], receivers=[2])
+    sym = mpc.SecGrp(fg.SymmetricGroup(5))
+    out2 = await mpc.output([sym(sym.group.identity), sym(sym.group.identity)], receivers=[2])
+    flt = await mpc.output(mpc.SecFlt()(2.5), receivers=[])
+    n0 = await mpc.transfer([len(out), len(out2), 1 if flt is None else 0], senders=0)
+    return n0
+
+
+# ---------------------------------------------------------------------------------------------------- C15: PRSS
+@case('C15', 'list and array variants of the PRSS zero sharing agree (t = 2)', 'd7e87af', numpy=True, expected=True)
+async def _(mpc):
+    from mpyc import thresha, finfields
+    import secrets as _secrets
+    import itertools
+    F = finfields.GF(2 ** 61 - 1)
+    m, t = 5, 2
+    keys = {S: bytes([sum(S)]) * 16 for S in itertools.combinations(range(m), m - t)}
+    ok = True
+    for i in range(m):
+        prfs = {S: thresha.PRF(k, F.order) for S, k in keys.items() if i in S}
+        a = thresha.pseudorandom_share_zero(F, m, i, prfs, b'uci', 3)
+        b = thresha.np_pseudorandom_share_0(F, m, i, prfs, b'uci', 3)
+        ok = ok and [int(v) % F.order for v in a] == [int(v) % F.order for v in b.value.tolist()]
+    return ok
+
+
+@case('C15', 'PRFs cached before the keys of a peer arrive are rebuilt (PRSS used before mpc.start())', 'e70af1b', cfg=(3, 1, False),
+      expected=True)
+async def _(mpc):
+    f1 = mpc.prfs(2)
+    mpc._prss_keys_from_peer((mpc.pid + 1) % 3, bytes(16 * 8))     # what the handshake does when a peer's keys arrive
+    return mpc.prfs(2) is not f1
+
+
+# ---------------------------------------------------------------------------------------------------- C35: barriers / shutdown
+@case('C35', 'a coroutine call that fails at argument binding does not leak the nesting level', 'bf07c86', cfg=(3, 1, False),
+      expected=[0, 5])
+async def _(mpc):
+    secint = mpc.SecInt(16)
+    a = mpc.input(secint(5), senders=0)
+    await mpc.gather(a)
+    before = mpc._pc_level
+    for _ in range(2):
+        try:
+            mpc.output(a, bogus=1)
+        except TypeError:
+            pass
+    leaked = mpc._pc_level - before
+    await mpc.barrier()
+    return [leaked, int(await mpc.output(a))]
+
+
+# ---------------------------------------------------------------------------------------------------- C39: configuration
+@case('C39', 'lifted field: secure arrays accept arrays and elements of the base field', 'a8d57bd', cfg=(3, 1, False), numpy=True,
+      expected=[[0, 2, 1], [0, 0, 0], [0, 1, 2]])
+async def _(mpc):
+    S = mpc.SecFld(3)
+    A = mpc.input(S.array(np.array([0, 1, 2])), senders=0)
+    out = await mpc.output(A)
+    F = type(out).field
+    r = [A * F(2), A + out * 2, S.array(out)]
+    return [_ints((await mpc.output(v)).value.tolist()) for v in r]
+
+
+@case('C39', 'assigning mpc.threshold with 2t >= m is refused', 'ad822e5', cfg=(3, 1, False), expected=['ValueError', 1])
+async def _(mpc):
+    try:
+        mpc.threshold = 2
+        r = 'accepted'
+    except ValueError:
+        r = 'ValueError'
+    return [r, mpc.threshold]
+
+
+# ---------------------------------------------------------------------------------------------------- C22
+@case('C22', 'output of a zero-size secure array over a lifted field', 'c66c881', cfg=(3, 1, False), numpy=True, expected=[0])
+async def _(mpc):
+    z = mpc.SecFld(3).array(np.array([], dtype=object))
+    return list((await mpc.output(z)).shape)
+
+
 # ---------------------------------------------------------------------------------------------------- OPEN findings
 # Reproducers of the OPEN entries of known_findings.json that were reported by the defect-hunting sub-agents: `expected` is what
 # the property promises; as long as the defect is there the case fails and the owning check prints KNOWN-FINDING for its key.
@@ -506,6 +646,63 @@ async def _(mpc):
     secfxp = mpc.SecFxp()
     x = [secfxp(2.5)] * 4
     return [float(await mpc.output(st.stdev(x))), float(await mpc.output(st.pstdev(x)))]
+
+
+@open_case('C22', 'C22-cross-process-pickle', 'extension-field element and field array pickled here, unpickled in a fresh process',
+           expected=[0, 0])
+async def _(mpc):
+    import pickle
+    import subprocess
+    from mpyc import finfields, gfpx
+    import repo_path
+    F = finfields.GF(gfpx.GFpX(7)('x^2+1'))
+    blobs = [pickle.dumps(F(13))]
+    if np is not None:
+        blobs.append(pickle.dumps(finfields.GF(101).array(np.array([1, 2, 100]))))
+    else:
+        blobs.append(None)
+    rcs = []
+    for b in blobs:
+        if b is None:
+            rcs.append(0)
+            continue
+        code = ("import sys, pickle; sys.argv=['x','--no-log']; sys.path[:0]=%r; import mpyc.finfields; "
+                "pickle.loads(bytes.fromhex(%r))" % ([repo_path.REPO] + [p for p in sys.path if p.endswith('.deps')], b.hex()))
+        rcs.append(subprocess.run([sys.executable, '-c', code], capture_output=True, timeout=120).returncode)
+    return rcs
+
+
+@open_case('C09', 'C09-duplicate-party-in-list', 'output to receivers=[0, 0] (a party listed twice)', cfg=(3, 1, False), expected=[5, None, None])
+async def _(mpc):
+    secint = mpc.SecInt(16)
+    import asyncio
+    x = mpc.input(secint(5), senders=1)
+    await mpc.gather(x)
+    if mpc.pid == 0:
+        for _ in range(200):          # the receiver is slow: both copies of its predecessor's share arrive first
+            await asyncio.sleep(0)
+    r = await mpc.output(x, receivers=[0, 0])
+    return await mpc.transfer(None if r is None else int(r))
+
+
+@open_case('C21', 'C21-sqrt-even-degree-large-p', 'first sqrt() in GF(10007^2) needs few modular powers (not about p)', expected=True)
+async def _(mpc):
+    from mpyc import finfields
+    F = finfields.GF(finfields.find_irreducible(10007, 2))
+    poly = type(F.modulus)
+    orig = poly.powmod
+    calls = [0]
+
+    def counting(*a, **kw):
+        calls[0] += 1
+        return orig(*a, **kw)
+    poly.powmod = staticmethod(counting)
+    try:
+        a = F(10007 + 3) ** 2
+        r = a.sqrt()
+        return r * r == a and calls[0] < 500
+    finally:
+        poly.powmod = orig
 
 
 # ---------------------------------------------------------------------------------------------------- driver
